@@ -1,3 +1,4 @@
+import Props.SchedTie
 import TaskModel.Sched.WaiterLemmas
 import Props.C14
 /-!
